@@ -181,10 +181,24 @@ def replay(work, scenarios, tag="spy", probes=4, deadline_ms=None):
         env["VERIF_SPY_DEADLINE_MS"] = deadline_ms
     rc, out, wall = vlib.go_test(work, "node", PKG, "TestVerifSpyReplay", INJECT, env=env, timeout=900)
     if "VERIF-REPLAYED" not in out:
-        raise vlib.Broken("spy harness did not complete (rc=%d):\n%s" % (rc, out[-4000:]))
-    lines = vlib.read_ndjson(trp)
+        # every call into the spy is made under recover(); a process that dies all the same was killed either by a crash
+        # in a goroutine of the code under test (an observation about the code) or by the harness (Broken)
+        import fam_explorer
+        crash = fam_explorer.parse_crash(out, marker="wormhole-fork/node/")
+        if crash is None:
+            raise vlib.Broken("spy harness did not complete (rc=%d):\n%s" % (rc, out[-4000:]))
+        CRASHES.append(crash)
+    lines = fam_explorer_read(trp) if "VERIF-REPLAYED" not in out else vlib.read_ndjson(trp)
     lines.sort(key=lambda ln: (ln["t"], ln["n"]))
     return lines, wall
+
+
+CRASHES = []    # (signature, output) of harness processes killed by a crash in the code under test
+
+
+def fam_explorer_read(path):
+    import fam_explorer
+    return fam_explorer._read_trace(path)
 
 
 def validate(work, lines, tag="spy", flood_ids=()):
